@@ -35,7 +35,7 @@ def bounds(tier):
     return {'quick': {'depth': 3}, 'thorough': {'depth': 5}}[tier]
 
 
-MODELS = [('pit', 'pit1d', {}), ('pit', 'pit2d', {}), ('mps', 'mps_a', {}), ('mps', 'mps_b', {'per_channel': True}),
+MODELS = [('pit', 'pit1d', {}), ('pit', 'pit2d', {}), ('pit', 'pit1d_flatcat', {}), ('mps', 'mps_a', {}), ('mps', 'mps_b', {'per_channel': True}),
           ('mps', 'mps_b', {'per_channel': True, 'w0': True}),     # per-channel search with the 0-bit (pruning) alternative
           ('sn', 'sn_a', {}), ('sn', 'sn_gumbel', {})]
 
@@ -83,7 +83,10 @@ def _step(nas, x, which, k):
     for p in nas.parameters():
         p.grad = None
     torch.manual_seed(500 + k)
-    loss = torch.tanh(nas(x)).sum() * 0.1 + 1e-3 * (nas.get_cost('a') + 1e-2 * nas.get_cost('b'))
+    # (the regulariser of the search evaluates metric 'b' first, the observations read 'a' first: nothing may depend on that order)
+    y = nas(x)
+    cb = nas.get_cost('b')
+    loss = torch.tanh(y).sum() * 0.1 + 1e-3 * (nas.get_cost('a') + 1e-2 * cb)
     grads = torch.autograd.grad(loss, [p for p in ps if p.requires_grad], allow_unused=True)
     with torch.no_grad():
         for p, g in zip([p for p in ps if p.requires_grad], grads):
